@@ -25,3 +25,4 @@ open RV.C09
 #print axioms copy_same
 #print axioms eq_python_value
 #print axioms eq_python_domain_tables
+#print axioms binary_codecs
